@@ -669,7 +669,7 @@ fn run_proto<E: Endpoint>(a: &Args, o: &Shared, proto: &str, modes: &[&str]) {
     let max_chunk = if v7 { 1390 } else { 1023 };
     let mut tn = 0;
     for mode in modes {
-        let n = match *mode { "link" => if th { 1500 } else { 60 }, "sender" => if th { 800 } else { 40 }, "fair" => if th { 800 } else { 40 }, "wrap" => if th { 20 } else { 2 }, _ => if th { 800 } else { 40 } };
+        let n = match *mode { "link" => if th { 1500 } else { 60 }, "sender" => if th { 800 } else { 40 }, "fair" => if th { 800 } else { 40 }, "wrap" => if th { 20 } else { 2 }, _ => if th { 1500 } else { 160 } };
         for _ in 0..n {
             tn += 1;
             let trace = format!("{}{}{}", mode, proto, tn);
